@@ -279,9 +279,9 @@ pub trait RollingValidReg<T: IsNone>: Vec1View<T> {
                     let n_f64 = n.f64();
                     let nn_add_n = n.mul_add(n, n);
                     let sum_t = (nn_add_n >> 1).f64(); // sum of time from 1 to window
+                    let sum_tt = (nn_add_n * n.mul_add(2, 1)).f64() / 6.; // sum of squared time from 1 to window
                     // denominator of slope
-                    let sum_tt = (n * nn_add_n * n.mul_add(2, 1)).f64() / 6.;
-                    let divisor = sum_tt - sum_t.powi(2);
+                    let divisor = n_f64 * sum_tt - sum_t.powi(2);
                     let beta = (n_f64 * sum_xt - sum_t * sum) / divisor;
                     let alpha = sum_t.mul_add(-beta, sum) / n_f64;
                     let resid_sum = sum_xx - 2. * alpha * sum - 2. * beta * sum_xt
